@@ -127,6 +127,9 @@ requests:
       - type: assert/response
         size: {val: 3, op: ">"}
         headers: {x-request-id: "rid-"}
+  - name: e
+    method: GET
+    uri: '/e/{{index .source.shop.users 5}}'
   - name: d
     method: POST
     uri: /d
@@ -224,6 +227,12 @@ func (c Cell) interpret(n *int, next *int) wantShot {
 	var w wantShot
 	token := "<no value>"
 	for _, st := range expand(c.Program) {
+		if st.name == "e" {
+			// the URI template fails while it is rendered (after part of it has been produced): the step
+			// fails before anything is sent, the shot stops, nothing of it may reach later renderings
+			w.samples = append(w.samples, Sample{Tag: "s1." + st.name, Proto: -1})
+			return w
+		}
 		*n++
 		kind := c.kindAt(*n, st.name)
 		s := Sent{}
@@ -592,6 +601,12 @@ func execCells(thorough bool) []Cell {
 
 func allCells(thorough bool) []Cell {
 	out := execCells(thorough)
+	// a step whose template cannot be rendered, at every position of short programs, 3 shots
+	for _, p := range [][]string{{"e"}, {"a", "e"}, {"e", "a"}, {"a", "e", "b"}, {"b", "e"}, {"b(2)", "e", "c"}, {"c", "e"}, {"a(1,100)", "e"}} {
+		for _, mw := range []int{0, 30} {
+			out = append(out, Cell{Mode: "exec", Program: p, MinWait: mw, Instances: 1, Shots: 3})
+		}
+	}
 	for _, w1 := range []int{0, 1, 2, 3, 4, 6} {
 		for _, w2 := range []int{0, 1, 2, 3, 4, 6} {
 			out = append(out, Cell{Mode: "weights", W1: w1, W2: w2, Instances: 1})
